@@ -487,7 +487,7 @@ REDEF = [
     ('#define X(a) (a) + (a)\n#define X(a) (a)  +\t(a)\n', True),
 ]
 DIRECTIVES = [('#if 1\n', False), ('#ifdef A\n', False), ('#ifndef A\n', False), ('#elif 1\n', False), ('#else\n', False), ('#endif\n', False), ('#include "x.h"\n', False),
-              ('#error no\n', False), ('#frob\n', False), ('#define C a ## b\n', False), ('#define C(a) #b\n', False), ('#define C __VA_ARGS__\n', False),
+              ('#error no\n', False), ('#frob\n', False), ('#define C a ## b\n', False), ('#define C(a) #b\n', False), ('#define C() #x\n', False), ('#define C() #\n', False), ('#define C(...) #x\n', False), ('#define C(...) #__VA_ARGS__\nC();', True), ('#define C() x\nC();', True), ('#define C __VA_ARGS__\n', False),
               # 6.10.3p5-6: macro parameters are uniquely declared; __VA_ARGS__ occurs only in the replacement list of a variadic macro
               ('#define C(a, a) a\n', False), ('#define C(a, b, a) b\n', False), ('#define C(a, b, c) a b c\nC(1,2,3);', True), ('#define __VA_ARGS__ 1\n', False), ('#define C(__VA_ARGS__) 1\n', False),
               ('#define C(a, __VA_ARGS__) 1\n', False), ('#define C(...) __VA_ARGS__\nC(1);', True),
